@@ -290,6 +290,14 @@ class BundleFlattener(ElabPass):
                 self.fail(msg)
             inst.connect(flat_port.name, flat.signals[path])
 
+        # And the reverse: everything the connection brings along must have somewhere to go.
+        extra = [path for path in flat.signals if path not in flat_bundle_port.signals]
+        if extra:
+            msg = f"Connection to `{portname}` on Instance `{inst.name}` "
+            msg += f"has `{extra}`, which the port does not. "
+            msg += f"Port has Signals `{list(flat_bundle_port.signals.keys())}`."
+            self.fail(msg)
+
     def flatten_bundle_inst(
         self, bundle_inst: BundleInstance, path: Path
     ) -> BundleScope:
